@@ -220,7 +220,24 @@ def run_shard(spec, ctx):
                     # tiny pools force collisions between would-be generated names and input names
                     opts['names_extra'] = rng.sample([b'a', b'b', b'c', b'd', b'ba', b'bb', b'x', b'print', b't', b'\x8e', b'if_', b'e'], 6)
                 p = progen.gen_program(rng, opts)
-                src = layout.render(p, rng)
+                if 'StatLabel' in p.feats and rng.random() < 0.35:
+                    # Lua 5.2 also allows blanks inside the colons (`:: name ::`); the token minifier must rename such a
+                    # label like any other occurrence of the name
+                    p.scopes = [(a, b, False if k == 'tight' else k) for (a, b, k) in p.scopes]
+                    saved = p.scopes
+                    src = layout.render(p, rng, style=rng.choice(('spaced', 'normal')))
+                    try:
+                        from pico8.lua import lua as _lua
+                        if src is not None:
+                            _lua.Lua.from_lines([src], version=8)
+                            ctx.feature('labels_with_inner_blanks')
+                    except Exception:
+                        # this tree does not accept the spaced form here (e.g. inside a block): use the tight form
+                        p.scopes = [(a, b, 'tight' if (k is False and b - a == 2 and p.toks[a][1] == b'::') else k)
+                                    for (a, b, k) in p.scopes]
+                        src = layout.render(p, rng)
+                else:
+                    src = layout.render(p, rng)
                 if src is None:
                     ctx.monitor('generator_rejects')
                     continue
